@@ -203,6 +203,25 @@ CLAIMED = {
              'the loader\'s four steps (read off the source on every run). All theorems closed under the global context.',
         technique='Coq invariant proof over sequences of runs of a cache-slot model + schedule-level model of the patched global (serial schedules proved, a racing schedule refuted by vm_compute) + differential correspondence with real interpreter runs',
         design='5/C16'),
+    'C07': dict(
+        text='Machine-checked (Coq 8.16.1), PARTIAL. The model is the name-resolution machine behind string annotations: the forward '
+             'scope built at decoration (builtins < module globals < locals of the enclosing function < root and current class < '
+             'attributes of the current class), proxies for missing names, and their resolution at check time (memo, module global, '
+             'locals of the still-running enclosing frame, name-matching stand-in when that frame is gone, exception otherwise). '
+             'Proved for every world of classes and every history of definitions, redefinitions, returns and calls: a name Python '
+             'itself can see at the definition means in the string exactly what it means evaluated; the class being defined can be '
+             'named by its methods; a name nobody defined raises the forward-reference exception at the check and leaves no trace; '
+             'once defined (module global, or local of the running enclosing function) the next check is the evaluated one and stays '
+             'so; the whole life of a module-level deferred name equals a three-line specification. Machine-refuted (and replayed on '
+             'the implementation every run): nested callables whose enclosing frame is gone get a name-matching stand-in instead '
+             'of the exception, remembered even after the name is defined (F38, F38b); a class defined late in a function that has '
+             'returned is matched by name only (F39). On every run 621 program families x up to 4 spellings are executed in fresh '
+             'modules and every verdict compared with the evaluated hint (the property) and with the model (the correspondence).',
+        note='Trusted: Coq kernel; the hand-written model C07/Fwd.v (tied by program-level correspondence and a source sanity check '
+             'of the resolution order); eval() of annotation text and frame introspection are CPython\'s; verdicts inside larger '
+             'hints are the shared core\'s (C01-C03). One deferred name per program. All theorems closed under the global context.',
+        technique='Coq proofs over a name-resolution state machine (equality with Python\'s own lookup, invariants over event histories, refinement of the module-level proxy to a specification, refutation witnesses by computation) + differential execution of generated programs in every spelling',
+        design='5/C07'),
     'C11': dict(
         text='Machine-checked (Coq 8.16.1), PARTIAL. Proved: (1) over the class table regenerated on every run from '
              'beartype.roar and from every raise statement under beartype/: every exported class is a BeartypeException or a '
